@@ -32,6 +32,8 @@ Exprs == {EA, Mem(Id("o"), "p"), Idx(Id("l"), Lit("0")), Idx(Id("o"), Lit("'p'")
           Call(Id("f"), <<EA>>), Mem(Mem(Id("o"), "p"), "q"),
           (* every dependency-carrying form applied to another one *)
           Idx(Id("l"), EA), Idx(Id("o"), EB), Mem(Obj(<<Named("x", EA)>>), "x"),
+          Idx(Arr(<<Item(Lit("1")), Item(EA), Item(Lit("2")), Item(EB)>>), Lit("3")), Idx(Arr(<<Hole, Item(EA)>>), Lit("1")),
+          Mem(Obj(<<Named("k", Lit("1")), Named("x", EA)>>), "x"),
           Mem(Obj(<<Spread(Id("o")), Named("x", EA)>>), "p"), Idx(Arr(<<Item(EA), Item(EB)>>), Lit("1")),
           Idx(Arr(<<Spread(Id("l")), Item(EA)>>), Lit("0")), Mem(Cond(EA, Id("o"), Obj(<<Named("p", EB)>>)), "p"),
           Cond(Mem(Id("o"), "p"), EA, EB), Un("!", Mem(Id("o"), "p")), Bin("+", Mem(Id("o"), "p"), Idx(Id("l"), Lit("0"))),
@@ -107,6 +109,7 @@ F4 == {File1(<<If(<<Br(c, "x")>>, FALSE, <<>>)>>) : c \in Conds}
 -----------------------------------------------------------------------------
 (* F5: lists *)
 Lists == {EV(Id("l")), EV(Id("o")), EV(Id("s")), EV(Id("a")), EV(Arr(<<Item(EA), Item(EB)>>)), SV("ab"),
+          EV(Arr(<<Item(Lit("1")), Item(EA), Item(Lit("'x'")), Item(EB)>>)), EV(Arr(<<Item(EA), Hole, Item(EB)>>)),      \* constants and holes between the data items
           EV(Mem(Id("o"), "p")), EV(Lit("2"))}
 Keys == {"", "*this", "k", "index"}
 Bodies(it, ix) == { <<Text(<<P(Id(it))>>)>>, <<Text(<<P(Id(ix)), S(":"), P(Id(it))>>)>>,
